@@ -182,10 +182,7 @@ class MemTrigger(BaseTrigger):
 
             # If we expect a specific last execution time and it doesn't match,
             # it means someone else updated it
-            if (
-                expected_last_execution is not None
-                and current != expected_last_execution
-            ):
+            if current != expected_last_execution:
                 return False
 
             self._last_cron_executions[condition_id] = execution_time
